@@ -13,6 +13,10 @@ from dsim.c14 import genscripts
 
 def with_id(op: dict) -> dict:
     """Op identity = everything that determines the expected result (not faults / reuse / counting)."""
+    if str(op.get("rules", "")).startswith("user:") and "rules_src" not in op:
+        from dsim.c14 import userrules
+
+        op["rules_src"] = userrules.SRC   # the rules travel with the operation (replays do not depend on this file)
     core = {k: v for k, v in op.items() if k not in ("fault", "reuse", "count_calls", "id", "family", "shared_filename", "mp_first", "mp_kwargs")}
     op["id"] = sha(jdump(core).encode())
     return op
